@@ -273,12 +273,18 @@ def process_ob(b, ob, log, seed, replay_dir):
     """returns record dict with status in: discharged | violation | undecided | tool-error"""
     rec = dict(name=ob.name, props=ob.props, unit=ob.unit, harness=ob.harness, entry=ob.entry, defs=ob.defs, unwind=ob.unwind,
                backend=ob.backend, bound=ob.bound, desc=ob.desc, tier=ob.tier)
+    wfut = None
+    if ob.witness:   # the witness twin runs concurrently with the main query
+        wres = {}
+        def _w(): wres['w'] = run_cbmc(b, ob, witness=True, backend='minisat' if ob.backend in ('kissat', 'cvc5', 'z3', 'cvc5int') else None)
+        wfut = threading.Thread(target=_w); wfut.start()
     main = run_cbmc(b, ob)
+    if wfut: wfut.join()
     rec['main'] = {k: main[k] for k in ('verdict', 'wall_s', 'solver_s', 'steps', 'vccs', 'vccs_rem', 'sat_vars', 'sat_clauses', 'n_props', 'backend')}
     rec['cmd'] = main['cmd']
     if main['verdict'] == 'success':
         if ob.witness:
-            w = run_cbmc(b, ob, witness=True, backend='minisat' if ob.backend == 'kissat' else None)
+            w = wres['w']
             wf = [f for f in w.get('failed', []) if 'WITNESS' in f['desc']]
             rec['witness'] = dict(verdict=w['verdict'], wall_s=w['wall_s'], reached=[f['desc'] for f in wf], vin=['%x' % v for v in w.get('vin', [])][:24])
             if w['verdict'] in ('timeout', 'oom'):
